@@ -25,7 +25,7 @@ RULE = ('One case = a generated chart (sends with and without delay, notify) + i
         'contained all 7 documented kinds and a notify.')
 ASSUMPTIONS = ["the undocumented, deprecated 'delayed event sent' meta-event is filtered out before comparison",
                'the listener is attached before the property statechart so that it records meta-event k before the property fails']
-REQUIRED_COUNTERS = ['stream_steps_checked', 'meta_events_checked', 'failfast_runs', 'noninterference_steps',
+REQUIRED_COUNTERS = ['deprecated_bind_form', 'stream_steps_checked', 'meta_events_checked', 'failfast_runs', 'noninterference_steps',
                      'streams_with_all_kinds_and_notify', 'property_time_checks', 'kind_event sent', 'kind_notify',
                      'delayed_sends_seen']
 KINDS = ['step started', 'step ended', 'event consumed', 'event sent', 'state exited', 'state entered', 'transition processed']
@@ -111,8 +111,16 @@ def run_case(acc, rnd, tier, case):
 
     def R(event, time):
         rec.append((event.name, freeze(event.data), time))
-    it.bind_property_statechart(recording_property(names),
-                                interpreter_klass=lambda s, clock: Interpreter(s, clock=clock, initial_context={'R': R}))
+    if rnd.random() < 0.25:
+        # deprecated but supported form: an Interpreter instance is given; it must be synchronised all the same
+        import warnings
+        with warnings.catch_warnings():
+            warnings.simplefilter('ignore')
+            it.bind_property_statechart(Interpreter(recording_property(names), initial_context={'R': R}))
+        acc.count('deprecated_bind_form')
+    else:
+        it.bind_property_statechart(recording_property(names),
+                                    interpreter_klass=lambda s, clock: Interpreter(s, clock=clock, initial_context={'R': R}))
     r = Runner(it, tmap, log=pr.log)
     base_obs = []
     meta_per_step = []          # number of documented meta-events emitted in each step
@@ -140,6 +148,19 @@ def run_case(acc, rnd, tier, case):
             i = next((j for j, (a, b) in enumerate(zip(got, exp)) if a != b), min(len(got), len(exp)))
             acc.violation('C10:stream-differs', 'step %d: listener/code log differs from what happened at position %d: got %r, '
                           'expected %r' % (k, i, got[i:i + 3], exp[i:i + 3]), dict(wit, step=k, macro=str(step)))
+            return
+        # the 'event sent' / notify meta-events must come in the order in which the code called send()/notify()
+        called = [e[1] for e in pr.log if e[0] == 'U']
+        announced = []
+        for e in pr.log:
+            if e[0] == 'M' and e[1] != 'delayed event sent':
+                if e[1] == 'event sent':
+                    announced.append(e[2]['event'].data.get('u'))
+                elif e[1] not in KINDS:
+                    announced.append(e[2].get('u'))
+        if announced != called:
+            acc.violation('C10:sent-order-differs-from-code', 'step %d: the code called send/notify with ids %r, listeners were told %r'
+                          % (k, called, announced), dict(wit, step=k))
             return
         mexp = [(e[1], e[2]) for e in exp if e[0] == 'M']
         mrec = [(n, d) for (n, d, tm) in rec if n != 'delayed event sent']
